@@ -1,11 +1,11 @@
 CONSTANTS Urls <- UrlsC
           Texts <- TextsC
-          Cfgs <- OneCfg
-          RebuildOnlyIfChanged = FALSE
+          Cfgs <- CfgsC
+          RebuildOnlyIfChanged = TRUE
           IdentsAccumulate = FALSE
-          ForgetIdentRecord = FALSE
+          ForgetIdentRecord = TRUE
           ConfigRebuilds = TRUE
-          MaxMsgs = 3
+          MaxMsgs = 4
           MaxInFlight = 1
           VersionGuard = FALSE
           RefreshFromMemory = TRUE
